@@ -65,7 +65,7 @@ type Regexp struct {
 type abort struct{ err error }
 
 // DefaultBudget is the default number of matcher steps per Match call.
-const DefaultBudget = 200000
+const DefaultBudget = 2000000
 
 // Compile builds the matcher for a parsed pattern (15.10.2.2). flags must be
 // a subset of "gim" without repetition (checked by ValidFlags).
